@@ -255,7 +255,7 @@ def r13_5(prog: Program, chk: Check) -> None:
         "annotation evaluation as a finite model: the AST route (annotations._Visitor, _type_from_value, _type_from_subscripted_value, _make_callable_from_value), the string route "
         "(_eval_forward_ref) and the runtime route (_type_from_runtime, _value_of_origin_args, _callable_args_from_runtime, make_type_var_value) with their shared helpers are "
         "interpreted from their AST on a vocabulary of ~800 annotation expressions (classes, Optional / Union / |, old and new style generics, the tuple forms, Literal, type[], "
-        "Callable, Annotated, Final / ClassVar, Required / NotRequired / ReadOnly, Unpack, TypeGuard / TypeIs, NewType, TypeVar, forward-reference strings, nested one level); the "
+        "Callable, Annotated, Final / ClassVar, Required / NotRequired / ReadOnly, Unpack, TypeGuard / TypeIs, NewType, TypeVar, forward-reference strings, a module class that shadows a builtin, nested one level) and 16 TypedDict classes declared once with annotation expressions and once with strings; the "
         "runtime object is built by CPython from the same expression; the three resulting values are equal (unions compare as sets, as MultiValuedValue.__eq__ does) and an "
         "annotation is rejected by all routes or by none",
         floor=20,
@@ -273,6 +273,20 @@ def r13_5(prog: Program, chk: Check) -> None:
             m["n"] += c["n"]  # type: ignore[operator]
             m["bad"] += c["bad"]  # type: ignore[operator]
             m["witness"] = sorted(list(m["witness"]) + list(c["witness"]), key=lambda d: (len(d["annotation"]), repr(d)))[:3]  # type: ignore[arg-type]
+    # TypedDict classes: the same declaration with real annotation expressions and with string annotations
+    from . import annot_model as amod
+
+    model = amod.AnnotModel(prog)
+    ns = amod.namespace()
+    td_bad, td_n = [], 0
+    for desc, real, quoted in amod.typeddict_pairs():
+        td_n += 1
+        r, er = model.via_runtime(real, ns)
+        q, eq = model.via_runtime(quoted, ns)
+        if isinstance(r, tuple) or isinstance(q, tuple) or r != q or bool(er) != bool(eq):
+            td_bad.append({"annotation": desc, "with_expressions": amod.describe(r), "with_strings": amod.describe(q), "errors": {"expressions": er, "strings": eq}})
+    merged["TypedDict class::string annotations == annotation expressions"] = {"n": td_n, "bad": len(td_bad), "witness": td_bad[:3]}
+    total += td_n
     chk.model_evaluations += total * 3
     chk.analysed["annotation_model"] = {"annotations": total, "routes": 3}
     site = prog.site("annotations", prog.func("annotations", "_value_of_origin_args"))
